@@ -348,7 +348,7 @@ def cases(ctx):
         return out
 
     def rhex(nd, case=None):
-        s = "%0*X" % (nd, rng.getrandbits(4 * nd))
+        s = "%0*X" % (nd, rng.fill(4 * nd))
         c = case or rng.choice(("u", "u", "l", "m"))
         return s.lower() if c == "l" else "".join(ch.lower() if rng.random() < 0.5 else ch for ch in s) if c == "m" else s
 
@@ -357,7 +357,7 @@ def cases(ctx):
         for _ in range(k):
             df = rng.randrange(32)
             n = rng.choice((56, 112)) if rng.random() < 0.3 else bits.df_len(df)
-            x = bits.downlink(df, rng.getrandbits(n - 29), n, rng.getrandbits(24), rng.randrange(80))
+            x = bits.downlink(df, rng.fill(n - 29), n, rng.fill(24), rng.randrange(80))
             s = "%0*X" % (n // 4, x)
             out.append(s.lower() if rng.random() < 0.25 else s)
         return out
@@ -368,15 +368,15 @@ def cases(ctx):
     work += chunks("squawk", [[format(c, "013b")] for c in range(8192)])
     work += chunks("gray2alt", [[format(c, "011b")] for c in range(2048)])
     work += chunks("hex2bin", [[rhex(rng.randint(1, 28))] for _ in range(3000 * N)] + [["0"], ["F"], ["f"], ["00"], ["a0B1c2"]])
-    work += chunks("bin2int", [[format(rng.getrandbits(nb), "0%db" % nb)] for nb in range(1, 113) for _ in range(20 * N)] +
+    work += chunks("bin2int", [[format(rng.fill(nb), "0%db" % nb)] for nb in range(1, 113) for _ in range(20 * N)] +
                    [["0" * 64], ["1" + "0" * 62], ["1" + "0" * 63], ["1" * 64], ["1" * 112]])
     work += chunks("hex2int", [[rhex(nd)] for nd in range(1, 29) for _ in range(60 * N)] + [["7" + "F" * 15], ["8" + "0" * 15], ["F" * 28]])
-    work += chunks("bin2hex", [[format(rng.getrandbits(nb), "0%db" % nb)] for nb in (1, 4, 5, 8, 13, 24, 56, 112) for _ in range(100 * N)])
+    work += chunks("bin2hex", [[format(rng.fill(nb), "0%db" % nb)] for nb in (1, 4, 5, 8, 13, 24, 56, 112) for _ in range(100 * N)])
     fr = frames(6000 * N)
     dftc = []
     for df in range(32):
         for tc in range(32):
-            dftc.append(["%028X" % bits.es_frame(df, rng.randrange(8), rng.getrandbits(24), (tc << 51) | rng.getrandbits(51))])
+            dftc.append(["%028X" % bits.es_frame(df, rng.randrange(8), rng.fill(24), (tc << 51) | rng.fill(51))])
             dftc[-1][0] = "%02X" % ((df << 3) | rng.randrange(8)) + dftc[-1][0][2:]
     work += chunks("df", [[f] for f in fr[:3000]] + dftc)
     work += chunks("typecode", [[f] for f in fr[:2000]] + dftc)
@@ -384,18 +384,18 @@ def cases(ctx):
     work += chunks("icao", [[f] for f in fr])
     work += chunks("data", [[f] for f in fr[:2000]])
     work += chunks("allzeros", [[f] for f in fr[:2000] if len(f) == 28] +
-                   [["%028X" % bits.with_pi(rng.getrandbits(32) << 56, 112, 0)] for _ in range(200)] +
-                   [["%028X" % bits.with_pi((rng.getrandbits(32) << 56) | (1 << rng.randrange(56)), 112, 0)] for _ in range(200)])
+                   [["%028X" % bits.with_pi(rng.fill(32) << 56, 112, 0)] for _ in range(200)] +
+                   [["%028X" % bits.with_pi((rng.fill(32) << 56) | (1 << rng.randrange(56)), 112, 0)] for _ in range(200)])
     ids = []
     for df in (5, 21, 4, 20, 0, 16, 17, 11):
         n = bits.df_len(df)
         for _ in range(400 * N):
-            code = rng.choice((0, 8191, rng.getrandbits(13), rng.getrandbits(13)))
-            x = bits.setfield(bits.downlink(df, rng.getrandbits(n - 29), n, rng.getrandbits(24)), n, 20, 32, code)
+            code = rng.choice((0, 8191, rng.fill(13), rng.fill(13)))
+            x = bits.setfield(bits.downlink(df, rng.fill(n - 29), n, rng.fill(24)), n, 20, 32, code)
             ids.append(["%0*X" % (n // 4, x)])
     work += chunks("idcode", ids)
     work += chunks("altcode", ids)
-    work += chunks("is_icao_assigned", [["%06X" % rng.getrandbits(24)] for _ in range(3000 * N)] +
+    work += chunks("is_icao_assigned", [["%06X" % rng.fill(24)] for _ in range(3000 * N)] +
                    [["%06X" % (b + d)] for b in (0x200000, 0x27FFFF, 0x280000, 0x28FFFF, 0x500000, 0x5FFFFF, 0x600000, 0x67FFFF, 0x680000,
                                                  0x6F0000, 0x900000, 0x9FFFFF, 0xB00000, 0xBFFFFF, 0xD00000, 0xDFFFFF, 0xF00000, 0xFFFFFF)
                     for d in (-1, 0, 1) if 0 <= b + d <= 0xFFFFFF] + [["abcdef"], ["ABCDE"], ["0000000"]])
@@ -411,7 +411,7 @@ def cases(ctx):
     work += chunks("cprNL", lats, 512)
     ws = []
     for _ in range(3000 * N):
-        d = format(rng.getrandbits(56) & rng.getrandbits(56), "056b")
+        d = format(rng.fill(56) & rng.fill(56), "056b")
         sb = rng.randint(1, 56)
         msb = rng.randint(1, 56)
         lsb = rng.randint(msb, 56)
@@ -441,38 +441,38 @@ def cases(ctx):
                 elif kind == 1:    # DF0/4/16/20 with such an altitude field
                     df = rng.choice((0, 4, 16, 20))
                     n = bits.df_len(df)
-                    x = bits.setfield(bits.downlink(df, rng.getrandbits(n - 29), n, rng.getrandbits(24)), n, 20, 32, bad_alt)
+                    x = bits.setfield(bits.downlink(df, rng.fill(n - 29), n, rng.fill(24)), n, 20, 32, bad_alt)
                     fset.append("%0*X" % (n // 4, x))
                 elif kind == 2:    # airborne position with an illegal 12-bit altitude (M bit removed)
                     a12 = ((bad_alt >> 7) << 6) | (bad_alt & 0x3F)
-                    me = (rng.choice((9, 11, 18)) << 51) | (rng.getrandbits(3) << 48) | (a12 << 36) | rng.getrandbits(36)
-                    fset.append("%028X" % bits.es_frame(17, 5, rng.getrandbits(24), me))
+                    me = (rng.choice((9, 11, 18)) << 51) | (rng.fill(3) << 48) | (a12 << 36) | rng.fill(36)
+                    fset.append("%028X" % bits.es_frame(17, 5, rng.fill(24), me))
                 else:              # DF17 with a type code on which typecode() is -1 / None for DF != 17/18 twins
-                    x = bits.downlink(rng.choice((19, 22, 24)), rng.getrandbits(83), 112, 0)
+                    x = bits.downlink(rng.choice((19, 22, 24)), rng.fill(83), 112, 0)
                     fset.append("%028X" % x)
             elif c < 0.45:
                 tc = rng.randrange(32)
-                me = (tc << 51) | rng.choice((0, (1 << 51) - 1, rng.getrandbits(51), rng.getrandbits(51)))
+                me = (tc << 51) | rng.choice((0, (1 << 51) - 1, rng.fill(51), rng.fill(51)))
                 if tc == 28 and rng.random() < 0.5:
                     me = (me & ~(0x1FFF << 32)) | (rng.choice((0, 8191)) << 32)
-                fset.append("%028X" % bits.es_frame(rng.choice((17, 18)), 5, rng.getrandbits(24), me))
+                fset.append("%028X" % bits.es_frame(rng.choice((17, 18)), 5, rng.fill(24), me))
             elif c < 0.75:
                 df = rng.choice((20, 21))
                 reg = rng.choice(("BDS10", "BDS17", "BDS20", "BDS30", "BDS40", "BDS44", "BDS45", "BDS50", "BDS60", "rand"))
                 if reg == "rand":
-                    mb, ac = rng.getrandbits(56) & rng.getrandbits(56), rng.choice((None, 0, 8191, rng.getrandbits(13)))
+                    mb, ac = rng.fill(56) & rng.fill(56), rng.choice((None, 0, 8191, rng.fill(13)))
                 else:
                     mb, ac = C12.BUILD[reg](rng, df)
                     if rng.random() < 0.5:
                         # altitude / identity field classes that make the C module answer with a sentinel
-                        ac = rng.choice((0, 8191, rng.getrandbits(13), rng.choice(ILLEGAL_GILLHAM), rng.choice(ILLEGAL_GILLHAM)))
+                        ac = rng.choice((0, 8191, rng.fill(13), rng.choice(ILLEGAL_GILLHAM), rng.choice(ILLEGAL_GILLHAM)))
                 fset.append(C12.commb_hex(ctx, mb, df, ac).upper())
             else:
                 df = rng.randrange(32)
                 n = bits.df_len(df) if rng.random() < 0.8 else rng.choice((56, 112))
-                x = bits.downlink(df, rng.getrandbits(n - 29), n, rng.getrandbits(24), rng.randrange(80))
+                x = bits.downlink(df, rng.fill(n - 29), n, rng.fill(24), rng.randrange(80))
                 if rng.random() < 0.3:
-                    x = bits.setfield(x, n, 20, 32, rng.choice((0, 8191, 0x0040, 0x0010, rng.getrandbits(13))))
+                    x = bits.setfield(x, n, 20, 32, rng.choice((0, 8191, 0x0040, 0x0010, rng.fill(13))))
                 fset.append("%0*X" % (n // 4, x))
         calls = []
         for idx, hx in enumerate(fset):
